@@ -10,6 +10,7 @@ func init() {
 	register("string", 8, genStrings)
 	register("slice", 10, genSlices)
 	register("array", 6, genArrays)
+	register("equality", 6, genEquality)
 	register("struct", 6, genStructs)
 	register("map", 8, genMaps)
 	register("pointer", 5, genPointers)
@@ -409,6 +410,64 @@ func genArrays(g *G) string {
 		g.P("arr := [...]string{0: \"a\", %d: \"c\"}", 2+g.n(3))
 		g.P("println(\"sparse \" + itoa(int64(len(arr))) + arr[0] + arr[1] + arr[2])")
 		return "array:multi-dim"
+	}
+}
+
+// genEquality: == / != of arrays, named arrays, structs holding arrays, interface-boxed
+// arrays, nested arrays and switch cases, over element types whose equality is not bitwise.
+func genEquality(g *G) string {
+	{ // equality of composite values element by element, over element types with
+		// non-trivial equality (floats: NaN != NaN, +0 == -0 produced at run time; strings; bools)
+		typ := []string{"float64", "float32", "float64", "string", "bool", "int8", "uint64"}[g.n(7)]
+		var pool []string
+		switch typ {
+		case "float64", "float32":
+			g.P("z := %s(0)", typ)
+			g.P("one := %s(1)", typ)
+			g.P("_, _ = z, one")
+			pool = []string{"z", "-z", "z / z", "one / z", "-one / z", "one", "one / 3", "z * -one", "-(z / z)"}
+		case "string":
+			pool = []string{`""`, `"a"`, `"a" + ""`, `"ab"[:1]`, `"b"`}
+		case "bool":
+			pool = []string{"true", "false", "1 < 2"}
+		case "int8":
+			g.P("z := int8(0)")
+			g.P("_ = z")
+			pool = []string{"z", "-z", "z - 127 - 1", "127 + z", "z - 1"}
+		default:
+			g.P("z := uint64(0)")
+			g.P("_ = z")
+			pool = []string{"z", "z - 1", "1 << 63 + z", "z + 1"}
+		}
+		k := 1 + g.n(3)
+		pickv := func() string {
+			var xs []string
+			for i := 0; i < k; i++ {
+				xs = append(xs, pool[g.n(len(pool))])
+			}
+			return strings.Join(xs, ", ")
+		}
+		av := pickv()
+		bv := av
+		if g.pct(60) {
+			bv = pickv()
+		}
+		g.D("type %s [%d]%s", g.T("Arr"), k, typ)
+		g.D("type %s struct {\n\ta [%d]%s\n\tn int\n}", g.T("W"), k, typ)
+		g.P("a := [%d]%s{%s}", k, typ, av)
+		g.P("b := [%d]%s{%s}", k, typ, bv)
+		g.P("println(\"arr \" + btoa(a == b) + btoa(a != b) + btoa(a == a))")
+		g.P("na, nb := %s(a), %s(b)", g.T("Arr"), g.T("Arr"))
+		g.P("println(\"named \" + btoa(na == nb) + btoa(na != nb))")
+		g.P("wa, wb := %s{a, 1}, %s{b, 1}", g.T("W"), g.T("W"))
+		g.P("println(\"struct \" + btoa(wa == wb) + btoa(wa != wb))")
+		g.P("var ia, ib any = a, b")
+		g.P("println(\"iface \" + btoa(ia == ib) + btoa(ia != ib) + btoa(ia == any(na)))")
+		g.P("nested := [2][%d]%s{a, b}", k, typ)
+		g.P("nested2 := [2][%d]%s{a, a}", k, typ)
+		g.P("println(\"nested \" + btoa(nested == nested2) + btoa(nested[0] == nested2[1]))")
+		g.P("switch ia {\ncase any(b):\n\tprintln(\"case b\")\ncase any(na):\n\tprintln(\"case named\")\ndefault:\n\tprintln(\"case none\")\n}")
+		return "equality:elementwise:" + typ
 	}
 }
 
